@@ -23,8 +23,23 @@ fn corpus(repo: &str) -> (Corpus, Value) {
     let h = workload::harvest(repo, &derives);
     let info = json!({"files": h.files, "files_unparsed": h.files_unparsed, "items_with_derive": h.items, "harvested_keys": h.keys.len(),
                       "hand_written_fault_keys": workload::fault_keys().len(), "derives": derives.len()});
+    // group by (derive, first identifier after struct/enum/union)
+    let mut groups: std::collections::BTreeMap<(String, String), Vec<usize>> = Default::default();
+    for (i, k) in h.keys.iter().enumerate() {
+        let toks: Vec<&str> = k.item.split_whitespace().collect();
+        if let Some(p) = toks.iter().position(|t| matches!(*t, "struct" | "enum" | "union")) {
+            if let Some(name) = toks.get(p + 1) {
+                groups.entry((k.derive.clone(), name.to_string())).or_default().push(i);
+            }
+        }
+    }
+    let collisions: Vec<Vec<usize>> = groups.into_values().filter(|g| g.len() >= 2).collect();
+    let info = json!({"files": info["files"], "files_unparsed": info["files_unparsed"], "items_with_derive": info["items_with_derive"],
+                      "harvested_keys": info["harvested_keys"], "hand_written_fault_keys": info["hand_written_fault_keys"], "derives": info["derives"],
+                      "name_collision_groups": collisions.len()});
     (
         Corpus {
+            collisions,
             base: h.keys,
             faults: workload::fault_keys(),
             derives,
